@@ -197,6 +197,16 @@ Proof.
   now rewrite reshapeC2_concat.
 Qed.
 
+Theorem roundtrip_array b (s : shape) (c : list D) : length c = size s -> length s <> 2 ->
+  import b (export b (OArray s c)) = Some (OArray s c).
+Proof.
+  intros Hc Hs. unfold C16IO.export, C16IO.export_lines. cbn [concat app C16IO.import String.eqb Ascii.eqb Bool.eqb].
+  unfold import_matrix. rewrite concat_app, rd_shape_lines. cbn [bindo fst snd].
+  rewrite concat_one_per_line. rewrite <- (app_nil_r (map num c)).
+  destruct s as [|d1 [|d2 [|d3 s']]]; try (cbn in Hs; congruence);
+    rewrite <- Hc, rd_nums_num; reflexivity.
+Qed.
+
 Lemma length_kshape (K : ktensor D) : length (kshape K) = length (kfactors K).
 Proof. unfold kshape. now rewrite map_length. Qed.
 
@@ -214,11 +224,18 @@ Qed.
 (* all four at once, for every index base *)
 Theorem roundtrip b (o : obj D) : wf_obj D o -> import b (export b o) = Some o.
 Proof.
-  destruct o as [X|S|K|m n A]; cbn [wf_obj].
+  destruct o as [X|S|K|m n A|s c]; cbn [wf_obj].
   - apply roundtrip_tensor.
   - intros [H1 H2]. now apply roundtrip_sptensor.
   - apply roundtrip_ktensor.
   - intros [H1 H2]. now apply roundtrip_matrix.
+  - intros [H1 H2]. now apply roundtrip_array.
+Qed.
+
+(* hence the file determines the object: two admissible objects with the same token sequence are equal *)
+Corollary export_injective b (o1 o2 : obj D) : wf_obj D o1 -> wf_obj D o2 -> export b o1 = export b o2 -> o1 = o2.
+Proof.
+  intros W1 W2 E. pose proof (roundtrip b o1 W1) as R1. rewrite E, (roundtrip b o2 W2) in R1. now inversion R1.
 Qed.
 
 (* the subscripts a sparse file carries: stored subscript + base, in stored order (base 1 for export_data) *)
